@@ -129,6 +129,16 @@ func (e *hEngine) Express(interest *ndn.EncodedInterest, cb ndn.ExpressCallbackF
 			e.in.bad("C15.newest", "metadata Interest on the wire does not carry CanBePrefix", fmt.Sprintf("Interest %s cannot match %s/<version>/<segment>", r.nameS, r.nameS))
 		}
 	}
+	// request stream: an Interest for a segment beyond the FinalBlockId of the published version is
+	// not a violation by itself (the property speaks of what the callback reports), but it is
+	// remembered: if the fetch then fails within the retry budget, this is the root cause to name
+	if fb, ok := e.in.pastEnd(n); ok {
+		e.in.pastReq[r.nameS]++
+		e.in.toNames[r.nameS] = r.name
+		if e.in.pastNote == "" {
+			e.in.pastNote = fmt.Sprintf("the consumer expressed Interest %s although the published version ends at FinalBlockId seg=%d", r.nameS, fb)
+		}
+	}
 	if e.down {
 		// engine/basic order: PIT entry first, then face.Send fails, the error goes to the caller
 		r.flying, r.unsent = false, true
